@@ -372,9 +372,13 @@ fn run_on_this_thread(scn: Arc<dyn Scenario>, tier: Tier, env_seed: u64, tape: T
                 ev!("virtual time cap reached");
             }
             sim::sync_clock();
+            // Scenario tasks that never finish (peers) are dropped here, inside
+            // the runtime (their sockets and timers want one to be dropped in).
+            super::exec::shutdown_all();
         });
         // Dropping the runtime drops library tasks (and their sockets).
         drop(rt);
+        super::exec::shutdown_all();
         BREAKER_WAKER.with(|w| *w.borrow_mut() = None);
     }));
     let vtime_ns = sim::VNOW_NS.with(|c| c.get());
